@@ -267,6 +267,43 @@ int main(int argc, char** argv) {
     g_lang = polyseed_get_lang(li);
     for (int i = 0; i < 19; ++i) g_secret[i] = g_rand[i] = (unsigned char)(0x31 + 7 * i);
     g_secret[18] &= 0x3F;
+    /* where another list shares exact words with this one (the two Chinese lists): prefer a seed whose phrase BEGINS with
+     * at least six shared words but is not shared as a whole - auto-detection then tries the other list, gets six words
+     * far and gives up: what it leaves behind of that attempt is part of the scan (the decode still succeeds) */
+    {
+        uint64_t z = 0x243F6A8885A308D3ull;
+        for (int attempt = 0; attempt < 4000; ++attempt) {
+            unsigned char cand[19];
+            for (int i = 0; i < 19; ++i) { z = z * 6364136223846793005ull + 1442695040888963407ull; cand[i] = (unsigned char)(z >> 56); }
+            memcpy(g_rand, cand, 19);
+            polyseed_data* t = NULL;
+            if (polyseed_create(0, &t) != POLYSEED_OK) break;
+            polyseed_str ph; polyseed_encode(t, g_lang, POLYSEED_MONERO, ph);
+            polyseed_free(t);
+            unsigned ix[16]; for (int i = 0; i < 16; ++i) ix[i] = 9999;
+            { const polyseed_lang* keep = g_lang; (void)keep; indices_of(ph, ix); }
+            int best = 0;
+            for (int lb = 0; lb < polyseed_get_num_langs(); ++lb) {
+                if (lb == li) continue;
+                const polyseed_lang* Lb = polyseed_get_lang(lb);
+                int lead = 0, all = 1;
+                for (int i = 0; i < 16; ++i) {
+                    int found = 0;
+                    if (ix[i] < POLYSEED_LANG_SIZE) for (int j = 0; j < POLYSEED_LANG_SIZE; ++j) if (strcmp(Lb->words[j], g_lang->words[ix[i]]) == 0) { found = 1; break; }
+                    if (found && lead == i) lead = i + 1;
+                    if (!found) all = 0;
+                }
+                if (!all && lead > best) best = lead;
+            }
+            if (best >= 6) { for (int i = 0; i < 19; ++i) g_secret[i] = cand[i]; g_secret[18] &= 0x3F; break; }
+            if (attempt == 3999 || (attempt == 40 && best == 0)) {   /* no list shares words with this one: keep the default seed */
+                for (int i = 0; i < 19; ++i) g_rand[i] = (unsigned char)(0x31 + 7 * i);
+                break;
+            }
+        }
+        for (int i = 0; i < 19; ++i) g_secret[i] = g_rand[i];
+        g_secret[18] &= 0x3F;
+    }
     for (int i = 0; i < 32; ++i) g_mask[i] = (unsigned char)(0xC1 + 5 * i);
     /* a supported and an unsupported seed with the same secret, through the library itself */
     polyseed_data* s = NULL;
